@@ -1,68 +1,138 @@
-(* C15 / C05 model: the shape of a replacement of the rule files (what the rule engine does with it, conditions
-   abstracted) and what it means for it to speak.
-   A replacement is a list of items; an item is a literal text (t / ct / ot; empty or not), something computed (x /
-   spell / pronounce / translate: taken to speak), something silent (pause, bookmark, set_variables, ...), a wrapper
-   around a replacement (pitch / rate / volume / audio / voice / with ... replace:), or a test: branches tried in order
-   (if / else_if, each with its then-replacement; then_test / else_test are replacements made of one test) ending in an
-   optional else.  Conditions are not modelled: the evaluation below reads their outcomes from an arbitrary stream. *)
+(* C04 / C05 / C15 model: a replacement of the rule files as the rule engine builds it, and how the engine evaluates it.
+
+   The shape follows Replacement::build / ReplacementArray::build / TestArray::build / TestOrReplacements::build
+   (src/speech.rs) and TTS::build (src/tts.rs):
+     item  = t / ct / ot (a literal, empty or not) | x | a TTS command (spell / pronounce speak by themselves; the others
+             wrap an optional replace: body) | intent (children) | test | with (replace) | set_variables |
+             insert (nodes, replace) | translate | something the engine rejects
+     test  = a list of entries; an entry has a condition (if / else_if) or none, a then part and an optional else part;
+             a part is a replacement list (then: / else:) or again a test (then_test: / else_test:).
+   Evaluation (SpeechRulesWithContext::replace, TestArray::replace, InsertChildren::replace, TTS::replace_string):
+   the items of a list are dispatched in order; a test walks its entries: an entry whose condition holds gives its then
+   part, otherwise its else part if it has one -- also when further entries follow -- otherwise the next entry; an
+   insert over k > 0 nodes is  x, (body, x) repeated k-1 times.
+   XPath is not modelled: the outcome of each condition (0 = false) and the size of each insert's node set (0 = not a
+   node set) are read from an arbitrary stream, one number per test entry visited / insert evaluated.  [tr_items] gives
+   the sequence of engine events this produces -- exactly what the hook speech::verif::ev records (Tie/RuleEvalTie.v). *)
 From MC Require Import Lib.Base.
+Local Open Scope N_scope.
 
-Inductive repl :=
-| RText (nonempty : bool)
-| RXpath
-| RSilent
-| RWrap (body : repls)
-| RTest (bs : branches)
-with repls := RNil | RCons (r : repl) (rs : repls)
-with branches := BEnd (e : oelse) | BCons (b : repls) (bs : branches)
-with oelse := ENone | ESome (rs : repls).
+Inductive item :=
+| IText (nonempty : bool)
+| IX
+| ITts (speaks : bool) (body : items)
+| IIntent (body : items)
+| ITest (es : entries)
+| IWith (body : items)
+| ISetVars
+| IInsert (body : items)
+| ITranslate
+| IBad
+with items := INil | ICons (i : item) (r : items)
+with entries := ENil | ECons (cond : bool) (th : part) (el : part) (rest : entries)
+with part := PNone | PRepl (r : items) | PTest (es : entries).
 
-Scheme repl_mut := Induction for repl Sort Prop
-with repls_mut := Induction for repls Sort Prop
-with branches_mut := Induction for branches Sort Prop
-with oelse_mut := Induction for oelse Sort Prop.
-Combined Scheme rule_ast_ind from repl_mut, repls_mut, branches_mut, oelse_mut.
+Scheme item_mut := Induction for item Sort Prop
+with items_mut := Induction for items Sort Prop
+with entries_mut := Induction for entries Sort Prop
+with part_mut := Induction for part Sort Prop.
+Combined Scheme rule_ast_ind from item_mut, items_mut, entries_mut, part_mut.
 
-(* how many items are spoken when the conditions come out as the stream says (a missing outcome counts as false);
-   the rest of the stream is handed on *)
-Fixpoint eval (r : repl) (s : list bool) {struct r} : nat * list bool :=
+(* events *)
+Definition ev_text : N := 1.        (* a literal with something to say *)
+Definition ev_text0 : N := 10.      (* an empty literal (the hook cannot tell the two apart: see [norm_ev]) *)
+Definition ev_x : N := 2.
+Definition ev_tts : N := 3.
+Definition ev_tts_sp : N := 13.     (* spell / pronounce (the hook cannot tell: see [norm_ev]) *)
+Definition ev_intent : N := 4.
+Definition ev_test : N := 5.
+Definition ev_with : N := 6.
+Definition ev_setvars : N := 7.
+Definition ev_insert : N := 8.
+Definition ev_translate : N := 9.
+Definition ev_bad : N := 0.
+Definition ev_entry : N := 20.      (* a test entry is visited *)
+Definition ev_true : N := 21.       (* ... and its condition holds *)
+Definition ev_nodes (k : N) : N := 100 + k.
+Definition norm_ev (e : N) : N := if e =? ev_text0 then ev_text else if e =? ev_tts_sp then ev_tts else e.
+
+Definition next (s : list N) : N * list N := match s with o :: s' => (o, s') | [] => (0, []) end.
+
+Fixpoint tr_item (i : item) (s : list N) {struct i} : list N * list N :=
+  match i with
+  | IText b => ([if b then ev_text else ev_text0], s)
+  | IX => ([ev_x], s)
+  | ITts sp body => let (e, s1) := tr_items body s in ((if sp then ev_tts_sp else ev_tts) :: e, s1)
+  | IIntent body => let (e, s1) := tr_items body s in (ev_intent :: e, s1)
+  | ITest es => let (e, s1) := tr_entries es s in (ev_test :: e, s1)
+  | IWith body => let (e, s1) := tr_items body s in (ev_with :: e, s1)
+  | ISetVars => ([ev_setvars], s)
+  | IInsert body =>
+      let (k, s0) := next s in
+      if k =? 0 then ([ev_insert], s0) else
+      let (e, s1) := (fix rep (n : nat) (s : list N) {struct n} : list N * list N :=
+                        match n with
+                        | Datatypes.O => ([], s)
+                        | Datatypes.S n' => let (e1, s1) := tr_items body s in let (e2, s2) := rep n' s1 in (e1 ++ ev_x :: e2, s2)
+                        end) (N.to_nat k - 1)%nat s0 in
+      (ev_insert :: ev_nodes k :: ev_x :: e, s1)
+  | ITranslate => ([ev_translate], s)
+  | IBad => ([ev_bad], s)
+  end
+with tr_items (r : items) (s : list N) {struct r} : list N * list N :=
   match r with
-  | RText b => (if b then 1%nat else 0%nat, s)
-  | RXpath => (1%nat, s)
-  | RSilent => (0%nat, s)
-  | RWrap body => evals body s
-  | RTest bs => evalb bs s
+  | INil => ([], s)
+  | ICons i r' => let (e1, s1) := tr_item i s in let (e2, s2) := tr_items r' s1 in (e1 ++ e2, s2)
   end
-with evals (rs : repls) (s : list bool) {struct rs} : nat * list bool :=
-  match rs with
-  | RNil => (0%nat, s)
-  | RCons r rs' => let (n, s1) := eval r s in let (m, s2) := evals rs' s1 in ((n + m)%nat, s2)
+with tr_entries (es : entries) (s : list N) {struct es} : list N * list N :=
+  match es with
+  | ENil => ([], s)
+  | ECons c th el rest =>
+      let (o, s0) := next s in
+      if c && negb (o =? 0) then let (e, s1) := tr_part th s0 in (ev_entry :: ev_true :: e, s1)
+      else match el with
+           | PNone => let (e, s1) := tr_entries rest s0 in (ev_entry :: e, s1)
+           | _ => let (e, s1) := tr_part el s0 in (ev_entry :: e, s1)
+           end
   end
-with evalb (bs : branches) (s : list bool) {struct bs} : nat * list bool :=
-  match bs with
-  | BEnd e => match e with ENone => (0%nat, s) | ESome rs => evals rs s end
-  | BCons b bs' =>
-      match s with
-      | true :: s' => evals b s'
-      | false :: s' => evalb bs' s'
-      | [] => evalb bs' []
-      end
+with tr_part (p : part) (s : list N) {struct p} : list N * list N :=
+  match p with
+  | PNone => ([], s)
+  | PRepl r => tr_items r s
+  | PTest es => tr_entries es s
   end.
 
-(* speaks under every condition: some item of the list does; a test does when every branch does and it ends in an
-   else that does *)
-Fixpoint speaksb (r : repl) : bool :=
-  match r with
-  | RText b => b
-  | RXpath => true
-  | RSilent => false
-  | RWrap body => speaks_list body
-  | RTest bs => speaks_branches bs
+(* the events that put something into the speech: a literal that is not empty, a computed item (x -- also the ones
+   an insert dispatches --, spell / pronounce, translate) *)
+Definition speaking (e : N) : bool := (e =? ev_text) || (e =? ev_x) || (e =? ev_tts_sp) || (e =? ev_translate).
+Definition spoken (es : list N) : nat := List.length (filter speaking es).
+
+(* speaks under every outcome: some item of the list does; a test does when the part chosen does, whichever it is *)
+Fixpoint speaksb (i : item) : bool :=
+  match i with
+  | IText b => b
+  | IX => true
+  | ITts sp body => sp || speaks_items body
+  | IIntent body => speaks_items body
+  | ITest es => speaks_entries es
+  | IWith body => speaks_items body
+  | ISetVars => false
+  | IInsert _ => false        (* an insert whose nodes: is not a node set dispatches nothing *)
+  | ITranslate => true
+  | IBad => false
   end
-with speaks_list (rs : repls) : bool :=
-  match rs with RNil => false | RCons r rs' => speaksb r || speaks_list rs' end
-with speaks_branches (bs : branches) : bool :=
-  match bs with
-  | BEnd e => match e with ENone => false | ESome rs => speaks_list rs end
-  | BCons b bs' => speaks_list b && speaks_branches bs'
-  end.
+with speaks_items (r : items) : bool :=
+  match r with INil => false | ICons i r' => speaksb i || speaks_items r' end
+with speaks_entries (es : entries) : bool :=
+  match es with
+  | ENil => false
+  | ECons c th el rest =>
+      (if c then speaks_part th else true) &&
+      match el with PNone => speaks_entries rest | _ => speaks_part el end
+  end
+with speaks_part (p : part) : bool :=
+  match p with PNone => false | PRepl r => speaks_items r | PTest es => speaks_entries es end.
+
+(* the number of x items a replacement dispatches at its own level under the given outcomes (each is one selection of
+   nodes handed to the rules again) *)
+Definition selections (es : list N) : nat := List.length (filter (N.eqb ev_x) es).
